@@ -1,7 +1,10 @@
 //go:build verif
 
-// Contracts for the generated bindings of this package (property C05), derived mechanically by
-// /verif/tools/gencontracts.py from the generated source; checked by /verif/govc. Comments only.
+// Contracts for the generated bindings of this package, derived mechanically by /verif/tools/gencontracts.py;
+// checked by /verif/govc. Comments only. C05 (decoder totality): from the shape of the generated readers.
+// C03 (schema encoding): from the IDL file of the package - for a struct whose members are all scalars or
+// strings, WriteTo appends exactly the members in ascending tag order, each under its declared tag and wire
+// type, required ones always, optional ones unless equal to their declared default.
 
 package endpointf
 
@@ -29,3 +32,26 @@ package endpointf
 //@   ensures [C05] readBuf.buf.i >= p0
 //@   ensures [C05] validR(readBuf)
 //@   safety [C05]
+//
+//@ func (*EndpointF).WriteTo
+//@   requires st != nil && validB(buf) && len(st.Host) < 4294967296 && len(st.SetId) < 4294967296
+//@   let e0 = buf.buf.bytes
+//@   let e1 = e0 ++ encString(0, st.Host)
+//@   let e2 = e1 ++ encInt32(1, st.Port)
+//@   let e3 = e2 ++ encInt32(2, st.Timeout)
+//@   let e4 = e3 ++ encInt32(3, st.Istcp)
+//@   let e5 = e4 ++ encInt32(4, st.Grid)
+//@   let e6 = (st.Groupworkid != 0 ? e5 ++ encInt32(5, st.Groupworkid) : e5)
+//@   let e7 = (st.Grouprealid != 0 ? e6 ++ encInt32(6, st.Grouprealid) : e6)
+//@   let e8 = (st.SetId != "" ? e7 ++ encString(7, st.SetId) : e7)
+//@   let e9 = (st.Qos != 0 ? e8 ++ encInt32(8, st.Qos) : e8)
+//@   let e10 = (st.BakFlag != 0 ? e9 ++ encInt32(9, st.BakFlag) : e9)
+//@   let e11 = (st.Weight != 0 ? e10 ++ encInt32(11, st.Weight) : e10)
+//@   let e12 = (st.WeightType != 0 ? e11 ++ encInt32(12, st.WeightType) : e11)
+//@   let e13 = (st.AuthType != 0 ? e12 ++ encInt32(13, st.AuthType) : e12)
+//@   let pre = e13
+//@   opaque head encInt8 encInt16 encInt32 encInt64 encString encBool
+//@   perreturn
+//@   modifies buf.buf.bytes
+//@   ensures [C03] err == nil && buf.buf.bytes == pre
+//@   safety [C03]
